@@ -22,18 +22,23 @@ MODELS = {
     "iterimpl_u3": ("---- MODULE MC_it_u3 ----\nEXTENDS MC_IterImpl\nmcU == 0..7\n====\n",
                     "SPECIFICATION Spec\nCONSTANTS TMin = 0\n TMax = 7\n U <- mcU\n MaxCard = {q}\n Ks = {{0, 1, 2, 9}}\n UsePinnedOffset = FALSE\n PinnedTable = FALSE\n"
                     "INVARIANTS ConstructorOK ResultsAgree Refines\nCHECK_DEADLOCK FALSE\n", {"quick": 8, "thorough": 8}),
+    "parsevalues": ("---- MODULE MC_pv ----\nEXTENDS MC_ParseValues\n====\n",
+                    "SPECIFICATION Spec\nCONSTANTS N = {q}\n UsePinnedNeg = FALSE\nINVARIANTS Inv_Verdict Inv_Values Inv_Reject\nCHECK_DEADLOCK FALSE\n",
+                    {"quick": 2, "thorough": 3}),
     "resolve": (None, "SPECIFICATION Spec\nCONSTANTS ModeSlice = \"{q}\"\nINVARIANTS Inv_C10 Inv_C13\nCHECK_DEADLOCK FALSE\n",
                 {"quick": "default", "thorough": "all"}),
 }
 # the named deviations of the pinned tree must be FOUND by the model checker (discriminating power of the models)
 NEGATIVE = {
     "gencode_i4_pinned_offset": ("gencode_i4", lambda cfg: cfg.replace("UsePinnedOffset = FALSE", "UsePinnedOffset = TRUE").replace("MaxCard = 16", "MaxCard = 3"), "Inv_"),
+    "parsevalues_pinned_neg": ("parsevalues", lambda cfg: cfg.replace("UsePinnedNeg = FALSE", "UsePinnedNeg = TRUE").replace("N = 3", "N = 2"), "Inv_Verdict"),
     "iterimpl_pinned_table": ("iterimpl_i3", lambda cfg: cfg.replace("PinnedTable = FALSE", "PinnedTable = TRUE"), "ConstructorOK"),
 }
 FOR_PROP = {"C01": ["gencode_i4", "gencode_u4", "gencode_i8"], "C03": ["gencode_i4", "gencode_u4", "gencode_i8"],
             "C04": ["gencode_i4", "gencode_u4"], "C05": ["gencode_i4", "gencode_u4", "gencode_i8"],
             "C02": ["gencode_i4", "iterimpl_i3", "iterimpl_u3"], "C06": ["iterimpl_i3", "iterimpl_u3"], "C07": ["iterimpl_i3", "iterimpl_u3", "gencode_i4"],
-            "C08": ["iterimpl_u3"], "C09": ["resolve"], "C10": ["resolve"], "C13": ["resolve"]}
+            "C08": ["iterimpl_u3"], "C09": ["resolve"], "C10": ["resolve"], "C13": ["resolve"],
+            "C11": ["parsevalues"], "C12": ["parsevalues"], "C14": ["parsevalues"]}
 
 
 def run_model(name, tier, negative=None):
